@@ -5,7 +5,6 @@ V='/verif'
 props=[json.loads(l) for l in open(V+'/properties.jsonl')]
 NA={
  'C13':"series file: keys and ids are concrete data moved through mmap'd segment files and an on-disk robin-hood hash index keyed by xxhash of the key; the property is about create/delete/compact/reopen histories whose steps carry no symbolic data, so a run through the symbolic executor would be an enumeration of concrete runs in a slow interpreter, not a solver verdict; the segment entry and key codecs alone do not decide any clause of the property",
- 'C44':"password checks are bcrypt / iterated SHA-256 over the password bytes (hash loops are out of reach of the solvers for symbolic input and too slow to interpret for concrete input); the authentication middleware half is a sequence of store look-ups on concrete tokens/sessions with no symbolic kernel (the only symbolic candidate, session expiry against the clock, lives behind the kv store and encoding/json)",
  'C14':"tsi1 correctness lives in mmap'd index/log files with CRC32-checked entries, bloom filters and background compaction; CRC over symbolic bytes is out of reach of the solvers here and the file-set machinery cannot be driven without real files and goroutines",
  'C22':"quantifies over programs (InfluxQL queries) executed by the whole query engine against a reference evaluator: a whole-program differential run, not a bounded kernel a solver can decide",
  'C30':"tenant services are thin layers over the kv store with encoding/json (reflection) on every record; uniqueness is a property of histories through bolt/inmem indexes; no encodable kernel remains once kv and json are stubbed",
